@@ -55,9 +55,6 @@ impl Cfg {
         let out = OUTS.iter().position(|(f, t)| Some(*f) == v["format"].as_str() && Some(*t) == v["to_file"].as_bool())?;
         Some(Cfg { filter, wae: v["warnings_as_errors"].as_bool()?, out })
     }
-    fn deviation(self) -> usize {
-        (self.filter != 0) as usize + self.wae as usize + (self.out != 0) as usize
-    }
     fn format(self) -> OutputFormat {
         match OUTS[self.out].0 {
             "text" => OutputFormat::Text,
@@ -138,6 +135,7 @@ fn expected_exit_nonzero(files: &[LoadedFile], c: Cfg) -> bool {
     })
 }
 
+#[derive(Clone)]
 struct LoadedFile {
     name: String,
     id: FileId,
@@ -145,10 +143,21 @@ struct LoadedFile {
 }
 
 struct Loaded {
-    analysis: EmmyLuaAnalysis,
+    analysis: std::rc::Rc<EmmyLuaAnalysis>,
     main: PathBuf,
     files: Vec<LoadedFile>,
 }
+impl Loaded {
+    /// The same analysis seen as the workspace that contains only `subset` of the bank: which files are
+    /// checked is the only thing `run_check` derives from the workspace, and the bank files do not refer
+    /// to each other, so their diagnostics are the same in every subset (re-checked at process level).
+    fn restrict(&self, subset: &[usize]) -> Loaded {
+        let files = self.files.iter().filter(|f| subset.iter().any(|&b| BANK[b].0 == f.name)).cloned().collect();
+        Loaded { analysis: self.analysis.clone(), main: self.main.clone(), files }
+    }
+}
+
+thread_local! { static TAP: std::cell::RefCell<Option<StdoutTap>> = const { std::cell::RefCell::new(None) }; }
 
 fn make_workspace(dir: &Path, subset: &[usize], lib: bool) -> PathBuf {
     let _ = std::fs::remove_dir_all(dir);
@@ -183,7 +192,7 @@ fn load(rt: &tokio::runtime::Runtime, main: &Path) -> Loaded {
         files.push(LoadedFile { name, id, diags });
     }
     files.sort_by(|a, b| a.name.cmp(&b.name));
-    Loaded { analysis, main, files }
+    Loaded { analysis: std::rc::Rc::new(analysis), main, files }
 }
 
 // ---------------------------------------------------------------- report parsers
@@ -312,7 +321,9 @@ struct InProc {
 
 fn run_output_result(rt: &tokio::runtime::Runtime, l: &Loaded, order: &[usize], c: Cfg, scratch: &Path) -> Result<InProc, String> {
     let dest = scratch.join("report.out");
-    let _ = std::fs::remove_file(&dest);
+    if OUTS[c.out].1 {
+        let _ = std::fs::remove_file(&dest);
+    }
     let output = if OUTS[c.out].1 { OutputDestination::File(dest.clone()) } else { OutputDestination::Stdout };
     let (tx, rx) = tokio::sync::mpsc::channel(100);
     for &i in order {
@@ -320,12 +331,21 @@ fn run_output_result(rt: &tokio::runtime::Runtime, l: &Loaded, order: &[usize], 
         tx.try_send((f.id, Some(f.diags.clone()))).map_err(|e| format!("channel: {e}"))?;
     }
     drop(tx);
-    let cap = StdoutCapture::start(&scratch.join("stdout.cap"));
+    let tapped = TAP.with(|t| t.borrow().is_some());
+    let cap = if tapped {
+        TAP.with(|t| t.borrow().as_ref().unwrap().begin());
+        None
+    } else {
+        Some(StdoutCapture::start(&scratch.join("stdout.cap")))
+    };
     let db = l.analysis.compilation.get_db();
     let r = catch(|| {
         rt.block_on(emmylua_check::verif_api::output_result(order.len(), db, l.main.clone(), rx, c.format(), output, c.wae, FILTERS[c.filter]))
     });
-    let stdout = lossy(&cap.finish());
+    let stdout = match cap {
+        Some(cap) => lossy(&cap.finish()),
+        None => lossy(&TAP.with(|t| t.borrow().as_ref().unwrap().take())),
+    };
     let exit = r.map_err(|m| format!("panic:{}", m))?;
     let report = if OUTS[c.out].1 { std::fs::read_to_string(&dest).map_err(|e| format!("no report file: {e}"))? } else { stdout };
     Ok(InProc { exit, report })
@@ -433,14 +453,21 @@ type MinCache = Mutex<std::collections::HashMap<String, (Value, String)>>;
 /// then the failing one with knobs reset one at a time), number of files upward, subsets in bank order,
 /// without then with the library, arrival orders lexicographically. The result is cached per signature, so
 /// every raw case with that signature is counted under the same minimal witness.
-fn minimise(rt: &tokio::runtime::Runtime, dir: &Path, subset: &[usize], lib: bool, c: Cfg, sig: &str, bin: &Path, cache: &MinCache) -> (Value, String) {
+fn minimise(rt: &tokio::runtime::Runtime, dir: &Path, subset: &[usize], lib: bool, c: Cfg, sig: &str, bin: &Path, cache: &MinCache, big: Option<&[Loaded]>) -> (Value, String) {
     if let Some(hit) = cache.lock().unwrap().get(sig) {
         return hit.clone();
     }
     let is_bin = sig.starts_with("binary:");
     let try_case = |subset: &[usize], lib: bool, c: Cfg| -> Option<(Value, String)> {
-        let main = make_workspace(&dir.join("min"), subset, lib);
-        let l = load(rt, &main);
+        // in-process signatures are searched on the bank analysis restricted to the candidate's files (cheap);
+        // binary signatures need the candidate on disk
+        let l = match big {
+            Some(b) if !is_bin => {
+                let _ = std::fs::create_dir_all(dir.join("min"));
+                b[lib as usize].restrict(subset)
+            }
+            _ => load(rt, &make_workspace(&dir.join("min"), subset, lib)),
+        };
         let names: Vec<String> = l.files.iter().map(|f| f.name.clone()).collect();
         // the real binary's arrival order is up to the OS: give a failing case three chances to show
         let f = if is_bin {
@@ -450,6 +477,18 @@ fn minimise(rt: &tokio::runtime::Runtime, dir: &Path, subset: &[usize], lib: boo
         };
         f.into_iter().find(|(s, _, _)| s == sig).map(|(_, d, o)| (witness(subset, lib, c, &o, &names), d))
     };
+    // a binary failure usually has an in-process twin that is already minimised: try that case first
+    if let Some(twin) = sig.strip_prefix("binary:") {
+        let t = cache.lock().unwrap().get(twin).cloned();
+        if let Some((w, _)) = t {
+            if let (Some((ts, tl)), Some(tc)) = (ws_from_json(&w["workspace"]), Cfg::from_json(&w["config"])) {
+                if let Some(hit) = try_case(&ts, tl, tc) {
+                    cache.lock().unwrap().insert(sig.to_string(), hit.clone());
+                    return hit;
+                }
+            }
+        }
+    }
     let mut cfgs = vec![cfg(0)];
     for knobs in [[true, true, false], [true, false, true], [false, true, true], [true, false, false], [false, true, false], [false, false, true], [false, false, false]] {
         let mut k = c;
@@ -532,13 +571,12 @@ pub fn run(args: &Args) -> ! {
     let bin = real_bin("emmylua_check");
     let rt = tokio::runtime::Builder::new_current_thread().enable_all().build().unwrap();
     let mut rep = Report::new("C36", "model_checking");
-    let max_files = args.extra_usize("files").unwrap_or(args.tier.pick(3, 4));
-    // process level: quick = every workspace × configs within one knob of the default; thorough = every config
-    let max_dev = args.tier.pick(1, 3);
+    let thorough = args.tier == Tier::Thorough;
+    let max_files = args.extra_usize("files").unwrap_or(args.tier.pick(3, 4)).min(BANK.len());
 
     // workspaces: subsets of the bank with ≤ max_files files × library on/off, by size
     let mut workspaces: Vec<(Vec<usize>, bool)> = Vec::new();
-    for size in 0..=max_files.min(BANK.len()) {
+    for size in 0..=max_files {
         for mask in 0u32..(1 << BANK.len()) {
             if mask.count_ones() as usize == size {
                 let subset: Vec<usize> = (0..BANK.len()).filter(|b| mask & (1 << b) != 0).collect();
@@ -558,7 +596,90 @@ pub fn run(args: &Args) -> ! {
     let mut sev_seen: BTreeMap<String, u64> = BTreeMap::new();
     let mut done_ws = 0usize;
 
-    // ---- phase 1 (in-process, single-threaded because stdout is captured): every arrival order × every config
+    // ---- phase 1 (deciding, in-process, single-threaded because stdout is captured): every workspace ×
+    // every config × every arrival order. The bank is loaded twice through the crate's load_workspace (without
+    // and with the library root); a workspace is that analysis restricted to its files.
+    let all_files: Vec<usize> = (0..BANK.len()).collect();
+    let big: Vec<Loaded> = [false, true]
+        .iter()
+        .map(|&lib| {
+            let main = make_workspace(&base.join(if lib { "bank-lib" } else { "bank" }), &all_files, lib);
+            let l = load(&rt, &main);
+            if l.files.len() != BANK.len() {
+                let names: Vec<&String> = l.files.iter().map(|f| &f.name).collect();
+                all.violation(Violation { signature: "wrong-file-set".into(), witness: json!({"workspace": ws_json(&all_files, lib)}), detail: format!("main-workspace files to check are {names:?}, the workspace has {} files", BANK.len()) });
+            }
+            l
+        })
+        .collect();
+    for f in &big[0].files {
+        for d in &f.diags {
+            *sev_seen.entry(format!("{}:{}", f.name, level_name(d.severity))).or_insert(0) += 1;
+        }
+    }
+    let scratch = base.join("inproc");
+    let _ = std::fs::create_dir_all(&scratch);
+    TAP.with(|t| *t.borrow_mut() = Some(StdoutTap::install(&scratch.join("stdout.tap"))));
+    for (wi, (subset, lib)) in workspaces.iter().enumerate() {
+        if dl.expired() {
+            complete = false;
+            break;
+        }
+        let l = big[*lib as usize].restrict(subset);
+        let names: Vec<String> = l.files.iter().map(|f| f.name.clone()).collect();
+        let orders = permutations(l.files.len());
+        for ci in 0..N_CFG {
+            let c = cfg(ci);
+            let want = expected_exit_nonzero(&l.files, c);
+            seen_exit[want as usize] = true;
+            let n_items = expected_items(&l.files, c, false).len();
+            for o in &orders {
+                states += 1;
+                transitions += o.len() as u64;
+                all.eval(!o.is_empty());
+                let fails = inproc_failures(&rt, &l, c, std::slice::from_ref(o), &scratch);
+                all.outcome(&format!("in-process {} exit{} {}", OUTS[c.out].0, want as u8, if n_items == 0 { "empty-report" } else { "non-empty-report" }));
+                if states % 1499 == 0 {
+                    all.sample(|| json!({"workspace": ws_json(subset, *lib), "config": c.json(), "arrival_order": o.iter().map(|&i| names[i].clone()).collect::<Vec<_>>(), "expected_exit_nonzero": want, "expected_report_entries": n_items, "verdict": if fails.is_empty() { "agrees" } else { "differs" }}));
+                }
+                for (sig, _d, _ord) in fails {
+                    let (w, d) = minimise(&rt, &base, subset, *lib, c, &sig, &bin, &min_cache, Some(&big));
+                    all.violation(Violation { signature: sig, witness: w, detail: d });
+                }
+            }
+        }
+        done_ws = wi + 1;
+    }
+    TAP.with(|t| *t.borrow_mut() = None);
+
+    // ---- phase 2 (process level, parallel): the real binary.
+    // quick: a fixed set of 6 workspaces × 4 configurations (sampled); thorough: every workspace × every configuration
+    let pick = |names: &[&str]| -> Vec<usize> { (0..BANK.len()).filter(|&b| names.contains(&BANK[b].0)).collect() };
+    let proc_ws: Vec<(Vec<usize>, bool)> = if thorough {
+        workspaces.clone()
+    } else {
+        vec![
+            (vec![], false),
+            (pick(&["c.lua"]), false),
+            (pick(&["e.lua"]), false),
+            (pick(&["w.lua", "h.lua"]), false),
+            (pick(&["e.lua", "w.lua", "i.lua"]), true),
+            (pick(&["m.lua", "c.lua", "h.lua"]), true),
+        ]
+        .into_iter()
+        .filter(|(s, _)| s.len() <= max_files)
+        .collect()
+    };
+    let cfgs: Vec<Cfg> = if thorough {
+        (0..N_CFG).map(cfg).collect()
+    } else {
+        vec![
+            Cfg { filter: 0, wae: false, out: 0 }, // text, default
+            Cfg { filter: 2, wae: false, out: 2 }, // json to a file, --severity warn
+            Cfg { filter: 0, wae: true, out: 3 },  // sarif on stdout, --warnings-as-errors
+            Cfg { filter: 1, wae: true, out: 1 },  // json on stdout, --severity error --warnings-as-errors
+        ]
+    };
     struct Kept {
         subset: Vec<usize>,
         lib: bool,
@@ -566,58 +687,30 @@ pub fn run(args: &Args) -> ! {
         main: PathBuf,
         files: Vec<LoadedFile>,
     }
-    let mut kept: Vec<Kept> = Vec::new();
-    let in_dl = Deadline::after_secs((args.wall_cap_s * 0.5).max(5.0));
-    for (wi, (subset, lib)) in workspaces.iter().enumerate() {
-        if in_dl.expired() || dl.expired() {
-            complete = false;
-            break;
-        }
-        let dir = base.join(format!("w{wi}"));
+    // each process-level workspace is written to disk and loaded on its own; its diagnostics must be the ones the
+    // restricted bank analysis gave (that is what phase 1 relied on)
+    let shared: Vec<Vec<LoadedFile>> = proc_ws.iter().map(|(s, lib)| big[*lib as usize].restrict(s).files).collect();
+    drop(big);
+    let kept: Mutex<Vec<Option<Kept>>> = Mutex::new((0..proc_ws.len()).map(|_| None).collect());
+    let drift: Mutex<Vec<String>> = Mutex::new(Vec::new());
+    let (_, ok_a) = par_range(proc_ws.len() as u64, args.threads, &dl, |i, _| {
+        thread_local! { static RT: tokio::runtime::Runtime = tokio::runtime::Builder::new_current_thread().enable_all().build().unwrap(); }
+        let (subset, lib) = &proc_ws[i as usize];
+        let dir = base.join(format!("w{i}"));
         let main = make_workspace(&dir, subset, *lib);
-        let l = load(&rt, &main);
-        if l.files.len() != subset.len() {
-            let names: Vec<&String> = l.files.iter().map(|f| &f.name).collect();
-            all.violation(Violation { signature: "wrong-file-set".into(), witness: json!({"workspace": ws_json(subset, *lib)}), detail: format!("main-workspace files to check are {names:?}, the workspace has {} files", subset.len()) });
-        }
-        for f in &l.files {
-            for d in &f.diags {
-                *sev_seen.entry(format!("{}:{}", f.name, level_name(d.severity))).or_insert(0) += 1;
-            }
-        }
-        let names: Vec<String> = l.files.iter().map(|f| f.name.clone()).collect();
-        let orders = permutations(l.files.len());
-        for ci in 0..N_CFG {
-            let c = cfg(ci);
-            let want = expected_exit_nonzero(&l.files, c);
-            seen_exit[want as usize] = true;
-            for o in &orders {
-                states += 1;
-                transitions += o.len() as u64;
-                all.eval(!o.is_empty());
-                let fails = inproc_failures(&rt, &l, c, std::slice::from_ref(o), &dir);
-                let n_items = expected_items(&l.files, c, false).len();
-                all.outcome(&format!("in-process {} exit{} {}", OUTS[c.out].0, want as u8, if n_items == 0 { "empty-report" } else { "non-empty-report" }));
-                if states % 1499 == 0 {
-                    all.sample(|| json!({"workspace": ws_json(subset, *lib), "config": c.json(), "arrival_order": o.iter().map(|&i| names[i].clone()).collect::<Vec<_>>(), "expected_exit_nonzero": want, "expected_report_entries": n_items, "verdict": if fails.is_empty() { "agrees" } else { "differs" }}));
-                }
-                for (sig, _d, ord) in fails {
-                    let _ = ord;
-                    let (w, d) = minimise(&rt, &base, subset, *lib, c, &sig, &bin, &min_cache);
-                    all.violation(Violation { signature: sig, witness: w, detail: d });
-                }
-            }
+        let l = RT.with(|rt| load(rt, &main));
+        let key = |fs: &[LoadedFile]| fs.iter().map(|f| (f.name.clone(), serde_json::to_string(&f.diags).unwrap_or_default())).collect::<Vec<_>>();
+        if key(&l.files) != key(&shared[i as usize]) {
+            drift.lock().unwrap().push(format!("{}", ws_json(subset, *lib)));
         }
         let Loaded { analysis, main, files } = l;
         drop(analysis);
-        kept.push(Kept { subset: subset.clone(), lib: *lib, dir, main, files });
-        done_ws = wi + 1;
-    }
-
-    // ---- phase 2 (process level, parallel): the real binary on every kept workspace × configs
-    let cfgs: Vec<Cfg> = (0..N_CFG).map(cfg).filter(|c| c.deviation() <= max_dev).collect();
+        kept.lock().unwrap()[i as usize] = Some(Kept { subset: subset.clone(), lib: *lib, dir, main, files });
+    });
+    let kept: Vec<Kept> = kept.into_inner().unwrap().into_iter().flatten().collect();
     let jobs: Vec<(usize, Cfg)> = kept.iter().enumerate().flat_map(|(k, _)| cfgs.iter().map(move |c| (k, *c))).collect();
     let validated = Mutex::new(0u64);
+    let ran = Mutex::new(0u64);
     let (st, ok) = par_range(jobs.len() as u64, args.threads, &dl, |i, st| {
         let (k, c) = jobs[i as usize];
         let kw = &kept[k];
@@ -625,29 +718,34 @@ pub fn run(args: &Args) -> ! {
         let fails = binary_failures(&kw.files, &kw.main, c, &bin, &kw.dir);
         let want = expected_exit_nonzero(&kw.files, c);
         st.outcome(&format!("binary {} exit{}", OUTS[c.out].0, want as u8));
+        *ran.lock().unwrap() += 1;
         if fails.is_empty() {
             *validated.lock().unwrap() += 1;
         }
-        if i % 173 == 0 {
+        if thorough && i % 173 == 0 || !thorough && i % 5 == 0 {
             st.sample(|| json!({"binary": "emmylua_check", "workspace": ws_json(&kw.subset, kw.lib), "config": c.json(), "expected_exit_nonzero": want, "verdict": if fails.is_empty() { "agrees" } else { "differs" }}));
         }
         if !fails.is_empty() {
-            thread_local! { static RT: tokio::runtime::Runtime = tokio::runtime::Builder::new_current_thread().enable_all().build().unwrap(); }
-            RT.with(|rt| {
+            thread_local! { static RT2: tokio::runtime::Runtime = tokio::runtime::Builder::new_current_thread().enable_all().build().unwrap(); }
+            RT2.with(|rt| {
                 for (sig, _d, _) in fails {
                     let mdir = base.join(format!("t{}", thread_slot()));
-                    let (w, d) = minimise(rt, &mdir, &kw.subset, kw.lib, c, &sig, &bin, &min_cache);
+                    let (w, d) = minimise(rt, &mdir, &kw.subset, kw.lib, c, &sig, &bin, &min_cache, None);
                     st.violation(Violation { signature: sig, witness: w, detail: d });
                 }
             });
         }
     });
     all.merge(st);
-    if !ok {
+    if !ok || !ok_a {
         complete = false;
     }
     if !(seen_exit[0] && seen_exit[1]) {
         rep.machinery_error = Some("C36: the snippet bank no longer produces both exit classes (vacuous exploration)".into());
+    }
+    let drift = drift.into_inner().unwrap();
+    if let Some(d) = drift.first() {
+        rep.machinery_error = Some(format!("C36: a workspace loaded on its own has other diagnostics than the bank analysis restricted to its files ({} workspaces, e.g. {d})", drift.len()));
     }
 
     rep.exhaustive = complete;
@@ -659,18 +757,21 @@ pub fn run(args: &Args) -> ! {
         "workspaces_completed_in_process": done_ws,
         "configs": N_CFG,
         "arrival_orders": "all n! orders, n = number of main-workspace files",
+        "process_level_workspaces": kept.len(),
         "process_level_configs": cfgs.len(),
-        "process_level": format!("real binary on every workspace × every config within {max_dev} knob(s) of the default"),
+        "process_level": if thorough { "real binary on every workspace × every configuration" } else { "sampled: real binary on a fixed set of 6 workspaces (empty, clean, error, warning+hint, error+warning+information with library, mixed+clean+hint with library) × 4 configurations (text default; json file --severity warn; sarif --warnings-as-errors; json --severity error --warnings-as-errors)" },
     });
     rep.assumptions = vec![
         "the expected diagnostics are computed in-process through the crate's own load_workspace + diagnose_file with the same explicit .emmyrc.json; the check judges how they are filtered, counted and reported, not whether they are right".into(),
+        "in-process, a workspace is the analysis of the whole bank (loaded once without and once with the library root) restricted to the workspace's files — the files handed to output_result are the only thing run_check derives from the workspace; every process-level workspace is loaded on its own and must give the same diagnostics (a difference is a machinery error)".into(),
         "the order in which the real binary's tasks deliver results is chosen by the OS; the deciding step for arrival orders is the in-process enumeration".into(),
         "SARIF has one `note` level for information and hint".into(),
     ];
     rep.set("states", json!(states));
     rep.set("transitions", json!(transitions));
     rep.set("traces_validated_against_impl", json!(*validated.lock().unwrap()));
-    rep.set("binary_runs", json!(jobs.len()));
+    rep.set("binary_runs", json!(*ran.lock().unwrap()));
+    rep.set("binary_runs_targeted", json!(jobs.len()));
     rep.set("bank_severities_seen", json!(sev_seen));
     let _ = std::fs::remove_dir_all(&base);
     rep.finish(args, all)
